@@ -24,6 +24,9 @@ def run(ctx):
                 seen.add((s["id"], s["ver"]))
                 out.append(dict(s, sv_list=[772]))
                 out.append(dict(s, sv_list=[771, 772]))
+                # ... and the downgrade sentinel when the list is not highest-first (TLS 1.3 is still offered)
+                out.append(dict(s, sv_list=[771, 772], canary=2))
+                out.append(dict(s, sv_list=[771, 772], canary=3))
         return out
     scns, events, rej, unadv, mc = nc.run_nego(ctx, "c13", shards=8, subset=with_golang)
     for r in rej:
